@@ -24,6 +24,7 @@ import (
 	"time"
 
 	"github.com/Comcast/rulio/core"
+	"github.com/Comcast/rulio/cron"
 )
 
 type c12Delay struct {
@@ -101,7 +102,7 @@ func (d *delayStore) Remove(ctx *core.Context, loc string, k []byte) (int64, err
 // run a Javascript action (the witness uses a rule whose condition finds nothing).
 type c12App struct{ core.App }
 
-func (c12App) GenerateHeaders(ctx *core.Context) map[string]string { return nil }
+func (c12App) GenerateHeaders(ctx *core.Context) map[string]string               { return nil }
 func (c12App) ProcessBindings(ctx *core.Context, bs core.Bindings) core.Bindings { return bs }
 func (c12App) ProcessQuery(ctx *core.Context, raw map[string]interface{}, q core.Query) core.Query {
 	(&delayStore{}).pause(ctx, "ProcessQuery", "after")
@@ -109,15 +110,20 @@ func (c12App) ProcessQuery(ctx *core.Context, raw map[string]interface{}, q core
 }
 
 type c12Sys struct {
-	kind  string
-	mem   *core.MemStorage
-	store core.Storage
-	state core.State
-	loc   *core.Location
+	cr            *cron.Cron
+	sharePayloads bool
+	payMu         sync.Mutex
+	payloads      map[string]core.Map
+	kind          string
+	mem           *core.MemStorage
+	store         core.Storage
+	state         core.State
+	loc           *core.Location
 }
 
 func newC12Sys(c map[string]interface{}) (*c12Sys, error) {
-	s := &c12Sys{kind: "indexed"}
+	s := &c12Sys{kind: "indexed", payloads: map[string]core.Map{}}
+	s.sharePayloads, _ = c["share_payloads"].(bool)
 	if k, ok := c["state"].(string); ok {
 		s.kind = k
 	}
@@ -139,6 +145,17 @@ func newC12Sys(c map[string]interface{}) (*c12Sys, error) {
 		// under which slock/sunlock do nothing: the state lock must already be held around them
 		s.state.AddHook(func(ctx *core.Context, st core.State, id string, fact core.Map, loading bool) error { return nil })
 		s.state.RemHook(func(ctx *core.Context, st core.State, id string) error { return nil })
+	}
+	if ch, _ := c["cronhooks"].(bool); ch {
+		// the hooks a sys.System installs: the real cron service. A scheduled rule that comes due fires from the cron's
+		// goroutine, with the context its add hook captured, while clients keep working on the location.
+		cr, cerr := cron.NewCron(nil, time.Second, "c12cron", 1000000)
+		if cerr != nil {
+			return nil, cerr
+		}
+		go cr.Start(ctx)
+		s.cr = cr
+		cron.AddHooks(ctx, &cron.InternalCron{Cron: cr}, s.state)
 	}
 	s.loc, err = core.NewLocation(ctx, "a", s.state, nil)
 	if err != nil {
@@ -194,7 +211,19 @@ func (s *c12Sys) c12Step(ctx *core.Context, op map[string]interface{}) (r map[st
 		if !ok {
 			return errS("input")
 		}
-		got, err := loc.AddFact(ctx, id, core.Map(deepCopy(m).(map[string]interface{})))
+		payload := core.Map(deepCopy(m).(map[string]interface{}))
+		if s.sharePayloads {
+			// clients that send the very same Go map for equal facts (a Go caller reusing its payload): the location only reads it
+			bs, _ := json.Marshal(m)
+			s.payMu.Lock()
+			if p, have := s.payloads[string(bs)]; have {
+				payload = p
+			} else {
+				s.payloads[string(bs)] = payload
+			}
+			s.payMu.Unlock()
+		}
+		got, err := loc.AddFact(ctx, id, payload)
 		if err != nil {
 			return errR(err)
 		}
@@ -291,6 +320,9 @@ func init() {
 		s, err := newC12Sys(c)
 		if err != nil {
 			return errS("setup:" + err.Error())
+		}
+		if s.cr != nil {
+			defer s.cr.Kill(newCtx())
 		}
 		seed := int64(1)
 		if f, ok := c["seed"].(float64); ok {
